@@ -32,17 +32,51 @@ def port_set(port):
     return intervals.from_operator(port.operator, items)
 
 
+TEXT_VIEW = {"overrides": 0}
+
+
 def ace_obj_meaning(ace) -> dict:
-    """Packet-set description of a live Ace, plus the facts the skip rules talk about."""
+    """Packet-set description of a live Ace, plus the facts the skip rules talk about.
+
+    The entry *is* the line it renders (that is what a device gets): where the independent reader can read that line,
+    action, protocol, ports, flag tokens and plain addresses are taken from the text; the sub-objects' public fields
+    are used for what the text does not carry (group members) and as fallback. A field that differs between the two
+    views is counted (a sub-object edited in place that kept stale fields shows up here).
+    """
+    from vcheck.oracle import reader  # pylint: disable=import-outside-toplevel
+
     src, sg, snc = addr_cubes(ace.srcaddr)
     dst, dg, dnc = addr_cubes(ace.dstaddr)
-    return {
+    m = {
         "action": ace.action, "proto": ace.protocol.number, "src": src, "dst": dst,
         "sport": port_set(ace.srcport), "dport": port_set(ace.dstport),
         "flags": frozenset(ace.option.flags),
         "group": sg or dg, "nc": (snc and not sg) or (dnc and not dg), "line": ace.line,
         "outside": "outside" in (port_set(ace.srcport), port_set(ace.dstport)),
     }
+    if m["outside"]:
+        return m
+    try:
+        sem = reader.read_ace(ace.line, ace.type)
+    except (reader.ReadError, ValueError):
+        return m
+    text = {"action": sem["action"], "proto": sem["proto"],
+            "sport": sem["sport"][2] if sem["sport"] else None, "dport": sem["dport"][2] if sem["dport"] else None,
+            "flags": frozenset(sem["flags"])}
+    if sem["src"][0] == "cube" and not sg:
+        text["src"] = [tuple(sem["src"][1:])]
+    if sem["dst"][0] == "cube" and not dg:
+        text["dst"] = [tuple(sem["dst"][1:])]
+    diff = [k for k, v in text.items() if (m[k] if k not in ("src", "dst") else [tuple(c) for c in m[k]]) != v]
+    if diff:
+        TEXT_VIEW["overrides"] += 1
+        m["fields_disagree_with_text"] = diff
+        for key in diff:
+            m[key] = text[key]
+        if "src" in diff or "dst" in diff:
+            m["nc"] = (not sg and any(not bits.is_contiguous(c[1]) for c in m["src"])) or \
+                      (not dg and any(not bits.is_contiguous(c[1]) for c in m["dst"]))
+    return m
 
 
 def truth(bottom: dict, top: dict) -> bool:
